@@ -322,7 +322,8 @@ impl<'a, T> ChordsV2<'a, T> {
 
     fn process_presses(&mut self, active_layer: u16) {
         let mut presses = HVec::<u16, SMOL_Q_LEN>::new();
-        let mut relevant_release_found = false;
+        // The first release of a key that is pressed in the queue, if there is one.
+        let mut relevant_release = Option::<u16>::default();
         for qd in self.queue.iter() {
             match qd.event {
                 Event::Press(_, j) => {
@@ -332,12 +333,13 @@ impl<'a, T> ChordsV2<'a, T> {
                 }
                 Event::Release(_, j) => {
                     if presses.contains(&j) {
-                        relevant_release_found = true;
+                        relevant_release = Some(j);
                         break;
                     }
                 }
             }
         }
+        let relevant_release_found = relevant_release.is_some();
         let prev_active_chords_len = self.active_chords.len();
         let Some(starting_press) = presses.first() else {
             return;
@@ -421,7 +423,7 @@ impl<'a, T> ChordsV2<'a, T> {
                         .iter()
                         .all(|pk| accumulated_presses.contains(pk))
                     {
-                        let ach = get_active_chord(cch, since, coord, relevant_release_found);
+                        let ach = get_active_chord(cch, since, coord, relevant_release);
                         if self.active_chords.push(ach).is_err() {
                             // All slots are taken: treat the keys as not completing a chord.
                             no_chord_activations!(self);
@@ -456,7 +458,7 @@ impl<'a, T> ChordsV2<'a, T> {
                     match completed_chord {
                         Some(cch) => {
                             let coord = self.next_coord();
-                            let ach = get_active_chord(cch, since, coord, relevant_release_found);
+                            let ach = get_active_chord(cch, since, coord, relevant_release);
                             if self.active_chords.push(ach).is_err() {
                                 no_chord_activations!(self);
                             }
@@ -512,7 +514,7 @@ impl<'a, T> ChordsV2<'a, T> {
             match completed_chord {
                 Some(cch) => {
                     let ach =
-                        get_active_chord(cch, since, self.next_coord(), relevant_release_found);
+                        get_active_chord(cch, since, self.next_coord(), relevant_release);
                     if self.active_chords.push(ach).is_err() {
                         no_chord_activations!(self);
                     }
@@ -567,8 +569,11 @@ fn get_active_chord<'a, T>(
     cch: &ChordV2<'a, T>,
     since: u16,
     coord: u16,
-    release_found: bool,
+    released_key: Option<u16>,
 ) -> ActiveChord<'a, T> {
+    // Only the release of a participant releases the chord;
+    // the release of another key that was pressed along with it does not.
+    let release_found = released_key.is_some_and(|j| cch.participating_keys.contains(&j));
     let mut remaining_keys_to_release = HVec::new();
     if cch.release_behaviour == ReleaseBehaviour::OnLastRelease {
         remaining_keys_to_release.extend(cch.participating_keys.iter().copied());
